@@ -3388,6 +3388,12 @@ impl PeerConnection {
 
         self.inner.data_channels.lock().push(Arc::downgrade(&dc));
 
+        if dc.negotiated
+            && let Some(transport) = self.inner.sctp_transport.lock().clone()
+        {
+            transport.announce_negotiated_channel(&dc);
+        }
+
         if !dc.negotiated {
             let transport = self.inner.sctp_transport.lock().clone();
             if let Some(transport) = transport {
